@@ -23,19 +23,19 @@ import (
 )
 
 type relayFaults struct {
-	until      time.Duration // faults stop at this virtual instant (0: no faults at all)
-	dropPm     int
-	delayPm    int
-	delay      time.Duration
-	recvErrPm  int // a Recv call fails and kills its stream
-	sendErrPm  int
-	openErrPm  int // NewCipherBox / RecvStream / SendStream fail
-	fullPm     int // a Send blocks for `fullFor` (mailbox full)
-	fullFor    time.Duration
-	latMin     time.Duration
-	latMax     time.Duration
-	injectPm   int // after a Send, the relay also delivers a forged message (C07)
-	delErrPm   int // DelCipherBox fails (at any time, not only before `until`); the box may or may not be gone
+	until     time.Duration // faults stop at this virtual instant (0: no faults at all)
+	dropPm    int
+	delayPm   int
+	delay     time.Duration
+	recvErrPm int // a Recv call fails and kills its stream
+	sendErrPm int
+	openErrPm int // NewCipherBox / RecvStream / SendStream fail
+	fullPm    int // a Send blocks for `fullFor` (mailbox full)
+	fullFor   time.Duration
+	latMin    time.Duration
+	latMax    time.Duration
+	injectPm  int // after a Send, the relay also delivers a forged message (C07)
+	delErrPm  int // DelCipherBox fails (at any time, not only before `until`); the box may or may not be gone
 }
 
 type relayMsg struct {
